@@ -680,8 +680,51 @@ C10_ADOPT = {k: "C10.LaterAnswerWrong" for k in (
 C10_ADOPT["C02.NoTermination"] = "C10.NoHang"
 
 
+def lifecycle_part(res, trace, name):
+    """Conformance of the recorded state declarations (hook event State) with Lifecycle.tla: the
+    trace is accepted iff TLC can consume every event, which it reports as a violation of the
+    'invariant' NotAllConsumed (LifecycleTrace.tla)."""
+    d = workdir("%s_%s" % (res.prop, name))
+    sub = os.path.join(d, "states.ndjson")
+    k = 0
+    with open(trace) as f, open(sub, "w") as g:
+        for line in f:
+            if '"e":"State"' in line or '"e":"Reset"' in line:
+                g.write(line)
+                k += 1
+    md = os.path.join(d, "meta")
+    rc, out, dt = sh(["tlc", "-workers", "1", "-metadir", md, "-cleanup", "-noGenerateSpecTE",
+                      "-config", "LifecycleTrace.cfg", "LifecycleTrace.tla"], cwd=SPEC,
+                     env={"TRACE": sub, "JAVA_TOOL_OPTIONS": "-Xss1g -Xmx6g"}, timeout=1500, check=False)
+    shutil.rmtree(md, ignore_errors=True)
+    accepted = "Invariant NotAllConsumed is violated" in out
+    finished = "Model checking completed" in out
+    if not accepted and not finished:
+        raise ToolError("TLC gave no verdict on the life-cycle trace:\n" + out[-2000:])
+    prog = [int(x) for x in re.findall(r'PROGRESS (\d+)', out)]
+    res.cov["parts"].append({"part": name, "kind": "trace-validation (Lifecycle.tla)", "state_declarations": k,
+                             "accepted": accepted, "tlc_wall_s": round(dt, 1)})
+    res.cov["traces_validated_against_impl"] += 1
+    res.cov["events"]["State"] = res.cov["events"].get("State", 0) + k
+    if k < 500:
+        raise ToolError("vacuity guard: only %d state declarations recorded" % k)
+    if not accepted:
+        at = max(prog) if prog else 0
+        with open(sub) as f:
+            window = f.readlines()[max(0, at - 5): at + 105]
+        hit = {"mon": res.prop + ".LifecycleConformance", "fam": "history", "id": -1, "i": at,
+               "w": "the state declarations after event %d are not a behaviour of Lifecycle.tla" % at}
+        res.add_hit(hit, None, load_findings(), extra={"window": [json.loads(x) for x in window]})
+
+
 def check_C10(res, tier, seed):
+    # design level: every history of public calls over the transcribed life-cycle (Lifecycle.tla);
+    # restore_state_at_root as found at the pinned commit (F1) must violate it
+    mc_part(res, "Lifecycle", "Lifecycle", label="C10.MC.Lifecycle")
+    mc_part(res, "Lifecycle", "Lifecycle_asfound", expect_ok=False)
     tv_part(res, ["history"], n(tier, 500, 5000), seed, tier, "history", adopt=C10_ADOPT)
+    # the real solver's state declarations are a behaviour of Lifecycle.tla
+    lifecycle_part(res, os.path.join(WORK, "C10_history", "t.ndjson"), "lifecycle")
 
 
 def check_C12(res, tier, seed):
@@ -1343,3 +1386,49 @@ def check_C16(res, tier, seed):
 
 
 CHECKS["C16"] = (check_C16, "exploration")
+
+
+def check_C06(res, tier, seed):
+    # (1) the checker itself: whatever reverse propagation (Drcp.tla RUP) accepts is semantically
+    #     implied by the clauses used, on an enumerated universe of clauses (ASSUMEs of MC_Drcp)
+    mc_part(res, "MC_Drcp", "MC_Drcp", label="C06.MC.Checker")
+    # (2) the trace is the proof: models with every constraint tagged, solved to UNSAT / optimal with
+    #     scaffold / full / hinted DRCP logging; the .drcp and .lits files are tokenised by the harness
+    #     and replayed through the checker against the meaning of the posted model
+    count = n(tier, 270, 2700)
+    out, counts = tv_part(res, ["proof"], count, seed, tier, "proofs", spec="DrcpTrace",
+                          min_events={"PInf": count, "PNogood": count, "PConcl": count // 2})
+    by = collections.Counter()
+    cur = None
+    with open(os.path.join(WORK, "C06_proofs", "t.ndjson")) as f:
+        for line in f:
+            e = json.loads(line)
+            if e["e"] == "Reset":
+                cur = e["opts"]["proof"]
+            elif e["e"] == "Return":
+                by[cur + ":" + e["api"] + ":" + e["res"]] += 1
+            elif e["e"] == "PConcl":
+                by[cur + ":conclusion:" + ("UNSAT" if e["unsat"] else "bound")] += 1
+    res.cov["results_by_proof_mode"] = dict(by)
+    for mode in ("scaffold", "full", "hints"):
+        for what in ("conclusion:UNSAT", "conclusion:bound"):
+            if by[mode + ":" + what] < count // 60:
+                raise ToolError("vacuity guard: only %d %s proofs with %s" % (by[mode + ":" + what], mode, what))
+    res.cov["rule"] = ("every inference step must follow from the single constraint it is tagged with (semantic "
+                       "entailment over the declared domains, Constraints.tla); untagged inferences must be an "
+                       "improvement step of the optimisation, pure domain reasoning, or follow from live nogoods; "
+                       "every nogood must be implied by the model (plus the improvement assumptions made so far) "
+                       "and, in full/hinted proofs, be derivable by reverse propagation over atomic constraints "
+                       "(Drcp.tla) from the live nogoods and the inferences logged since the previous nogood; "
+                       "UNSAT needs the empty nogood and an unsatisfiable model; a bound conclusion must be a "
+                       "tight dual bound over the objective, match the returned optimum and be derivable; every "
+                       "code must be defined in the .lits file")
+    res.assumptions.append("constraints are posted with tags; add_clause / constraints::clause / conjunction are not "
+                           "used in proof scenarios (the library asserts 'tagging clauses is not implemented'), and "
+                           "every variable is named (the proof writer panics on unnamed variables)")
+    res.assumptions.append("hints are optional advice in the format definition: a nogood whose hinted steps alone do "
+                           "not suffice but which is derivable from the live steps is reported as C06x.HintsSufficient "
+                           "(informational)")
+
+
+CHECKS["C06"] = (check_C06, "model_checking")
